@@ -1,7 +1,7 @@
 _T = 'AITB.Codec.'
 SPEC = {
     'id': 'C17',
-    'lean_modules': ['AITB.Props.C17', 'AITB.Props.C17Dbl'],
+    'lean_modules': ['AITB.Props.C17', 'AITB.Props.C17Dbl', 'AITB.Props.C17DblText', 'AITB.Props.C17Final'],
     'theorems': [_T + t for t in [
         # numbers and combinators
         'scanN_printN', 'rep_roundtrip', 'rep_ok',
@@ -43,6 +43,16 @@ SPEC = {
         'decValue_sigDigits', 'decValue_sigDigits_close', 'toDouble_of_close', 'toDouble_sigDigits_ge17', 'toDouble_sigDigits17',
         'toDouble_neg', 'toDouble_of_IsPosDbl', 'isDoubleB_of_IsPosDbl', 'IsPosDbl_of_toDouble', 'IsPosDbl_of_isDoubleB',
         'isDoubleB_iff_IsPosDbl', 'sixteen_digits_not_enough',
+        # ... and on the model's concrete printer (printf %.{p}g layouts) and scanner (num_get accumulation + strtod): the
+        # former trusted hypothesis RT/Dbl17 is a theorem for the driver's codec
+        'DblText.floorLog10_lt', 'DblText.sigDigits_bounds', 'DblText.stripZeros_spec', 'DblText.accMant_shape', 'DblText.floatValue_shape',
+        'DblText.scanDQ_shape', 'DblText.scanDQ_gText', 'scanDQ_gText_sigDigits', 'scanDQ_zero', 'scanDQ_printDQ', 'scanDQ_printDQ_17', 'ratIO_RT',
+        # round trips of every kind at the source's precisions with NO numeric assumption (values = finite doubles)
+        'ratIO_Dbl17', 'roundtrip_dmodel_final', 'roundtrip_smodel_final', 'roundtrip_dexp_final', 'roundtrip_sexp_final',
+        'roundtrip_mpol_final', 'roundtrip_ppol_final', 'roundtrip_pd_final', 'roundtrip_ps_final', 'roundtrip_pdd_final',
+        'roundtrip_vec_final', 'load_dmodel_final', 'isDbl_half', 'isDbl_one', 'isDbl_third',
+        # consecutive loads on one stream: atomic each, failures sticky, sequences round-trip
+        'loadOn_good', 'loadSeq_failed', 'loadSeq_length', 'loadSeq_atomic', 'loadSeq_sticky', 'loadSeq_roundtrip',
     ]],
     # obligations over the regenerated module AITB.Gen.IOPrec (re-proved against the source on every run)
     'gen_obligations': [_T + 'IOPrec_utils_ge_17', _T + 'IOPrec_pomdpPolicy', _T + 'IOPrec_commit_last'],
